@@ -373,7 +373,7 @@ int main(int argc, char **argv)
   Args args(argc, argv);
   bool thorough = args.thorough();
   std::string scratch = args.kv.count("scratch") ? args.kv["scratch"] : ".";
-  std::string only = args.kv.count("part") ? args.kv["part"] : "";
+  std::string only = args.kv.count("part") ? args.kv["part"] : (getenv("C20_PART") ? getenv("C20_PART") : "");
   std::vector<Scn> scs = make_scenarios();
   prepare(scs, scratch);
   if (g_cmds.size() != 87) fprintf(stderr, "note: %zu registered commands\n", g_cmds.size());
